@@ -30,3 +30,16 @@ def detach(sym):
     if getattr(sym, "mode", "") == "symbolic":
         from crosshair.statespace import context_statespace
         context_statespace().detach_path()
+
+
+def enum_str(sym, name, max_len, alphabet, min_len=0):
+    """Every string over `alphabet` with min_len <= length <= max_len, one explored path per string.
+
+    Length and each character are solver selectors (sym.index forks), so the enumeration is exhaustive by
+    construction and the result is a concrete str.  (sym.str with an alphabet only *constrains* the characters:
+    CrossHair then explores one representative per length, which is not an enumeration.)"""
+    n = min_len + sym.index(name + "|len", max_len - min_len + 1)
+    out = ""
+    for i in range(n):
+        out += alphabet[sym.index(name + "|c" + str(i), len(alphabet))]
+    return out
